@@ -3,7 +3,7 @@
    copy at offset L, gringo's unknown-atom simplification) and Spec/DefElim.v (the auxiliary __future_p atoms of future
    heads with their defining rules, bridge rules and assumptions are a definitional extension). *)
 From Coq Require Import List Bool Arith ZArith Lia.
-Require Import HT TEL TELext DecP DefElim CoreRun Window Combined GenPrelude FromSource Loop Leaf_imain LoopProofs.
+Require Import HT TEL TELext DecP DefElim CoreRun Window Combined GenPrelude FromSource Loop Leaf_imain LoopProofs FromTransformers Ctx FutTransform FutTransformProofs.
 
 (* The instances accumulated by the incremental run of steps 0..h for look-ahead constraints (any depth, any part) are
    satisfied exactly if every constraint holds, read with atoms beyond h false, at every admissible position k <= h:
@@ -83,6 +83,30 @@ Proof.
   - f_equal. apply filter_ext. intros i. apply part_sel_window.
   - cbn [filter]. rewrite part_sel_window. destruct ((L <=? s) && selected p (s - L)); reflexivity.
 Qed.
+(* ---- the program transformer itself (Model/FutTransform.v: every per-atom decision is the REGENERATED Ctx.decide; the model's output is compared
+   with transformers.transform statement by statement on every run) ---- *)
+(* a constraint in the initial, always or dynamic part is accepted whatever atoms it mentions; the depth under which the transformer files it is
+   the look-ahead of the window model; the ground instance of its temporary copy (with `__final(__u)`, parameters (t,u) = (k,s)) means the
+   window instance `ginst s k true`, that of its permanent copy means `ginst s k false` - here-and-there and classically, for all interpretations *)
+Theorem C02_transformer_emits_the_window_copies : forall (A : Type) (r : frule A), fh A r = FCons A -> is_final (fp A r) = false ->
+  exists t, transform_rule A r = Some t /\ t_shift A t = Window.lookahead A (Window.cb A (to_crule A r)) /\ t_fut A t = [] /\
+    forall (H T : interp (gatom A)) (s k : nat),
+      (hsat _ H T (ground_cons A s (Z.of_nat k) (Z.of_nat s) (tmp_of A (t_rule A t))) = hsat _ H T (Window.ginst A s k true (to_crule A r)) /\
+       csat _ T (ground_cons A s (Z.of_nat k) (Z.of_nat s) (tmp_of A (t_rule A t))) = csat _ T (Window.ginst A s k true (to_crule A r))) /\
+      (hsat _ H T (ground_cons A s (Z.of_nat k) (Z.of_nat s) (t_rule A t)) = hsat _ H T (Window.ginst A s k false (to_crule A r)) /\
+       csat _ T (ground_cons A s (Z.of_nat k) (Z.of_nat s) (t_rule A t)) = csat _ T (Window.ginst A s k false (to_crule A r))).
+Proof. exact constraint_copies. Qed.
+(* the parts the transformer asks the loop to ground for a group of look-ahead constraints of depth L: temporary part with offsets 0..L-1,
+   permanent part with offset L (the input of C02_loop_grounds_window), next to the three ordinary parts with offset 0 *)
+Theorem C02_transformer_lists_the_window_parts : forall (A : Type) (leA : A -> A -> bool) (P : list (frule A)) (o : output A), transform_program A leA P = Some o ->
+  (forall rt L rs, In ((rt, L), rs) (o_cons A o) -> In (rt, KTmp L, seq 0 L) (o_parts A o) /\ In (rt, KPerm L, [L]) (o_parts A o)) /\
+  In (ORAlways, KMain, [0]) (o_parts A o) /\ In (ORDynamic, KMain, [0]) (o_parts A o) /\ In (ORInitial, KMain, [0]) (o_parts A o).
+Proof. intros A leA P o E. split; [exact (cons_parts A leA P o E)|exact (main_parts A leA P o E)]. Qed.
+(* every future head p'..' (n primes) of an accepted program has its future predicate (p, n): a bridge rule and a future signature *)
+Theorem C02_future_heads_have_bridge_rules : forall (A : Type) (leA : A -> A -> bool), (forall a, leA a a = true) ->
+  forall (P : list (frule A)) (o : output A), transform_program A leA P = Some o ->
+  forall r a n, In r P -> fh A r = FNorm A a n -> 0 < n -> has A leA (o_bridge A o) (a, n).
+Proof. intros A leA R P o E r a n. exact (future_heads_have_bridges A leA R P o E r a n). Qed.
 Print Assumptions C02_window_exact.
 Print Assumptions C02_temporary_copy_live.
 Print Assumptions C02_no_stale_instance.
@@ -93,3 +117,6 @@ Print Assumptions C02_assumption_filter.
 Print Assumptions C02_window_parts.
 Print Assumptions C02_loop_grounds_window.
 Print Assumptions C02_core_and_lookahead_exact.
+Print Assumptions C02_transformer_emits_the_window_copies.
+Print Assumptions C02_transformer_lists_the_window_parts.
+Print Assumptions C02_future_heads_have_bridge_rules.
